@@ -28,6 +28,10 @@ func djump(pc ProgramCounter, a uint32, jumpTable JumpTable, bitmask Bitmask) (E
 		panic(err.Error())
 	}
 
+	if dest >= uint64(len(bitmask)) {
+		// a jump-table entry wider than 32 bits must not wrap around into the code
+		return ExitPanic, pc
+	}
 	newPC := ProgramCounter(dest)
 
 	if !bitmask.IsStartOfBasicBlock(newPC) {
